@@ -3,7 +3,7 @@ import os, sys
 sys.path.insert(0, os.path.join(os.path.dirname(os.path.abspath(__file__)), "..", "lib"))
 from vf import H, C, M
 
-MODULES = [M("ohkami_lib/src/serde_urlencoded.rs", "harness/C09/urlencoded.rs"), M("ohkami_lib/src/serde_urlencoded/de.rs", "harness/C09/de_helper.rs"), M("ohkami_lib/src/serde_urlencoded/ser.rs", "harness/C09/ser_helper.rs")]
+MODULES = [M("ohkami_lib/src/serde_urlencoded.rs", "harness/C09/urlencoded.rs"), M("ohkami_lib/src/serde_urlencoded/de.rs", "harness/C09/de_helper.rs"), M("ohkami_lib/src/serde_urlencoded/ser.rs", "harness/C09/ser_helper.rs"), M("ohkami/src/request/query.rs", "harness/C09/query_iter.rs")]
 CONTRACTS = []
 B = dict(crate="ohkami_lib", strength="bounded", tier="quick", timeout=900)
 S, D = "serde_urlencoded::ser::URLEncodedSerializer::", "serde_urlencoded::de::URLEncodedDeserializer::"
@@ -41,6 +41,10 @@ HARNESSES += [
     H("c09_seq_empty_first_element", functions=["SerializeTuple::serialize_element"], clauses=["(\"\", \"x\") decodes back to (\"\", \"x\")"], bound="ONE concrete pair: the failing input class of KF-C09-empty-first-seq-element",
       finding="KF-C09-empty-first-seq-element", expect_covers=False, **B),
 ]
+HARNESSES += [H(f"c09_query_iter_k{k:02d}", crate="ohkami", strength="bounded", tier="thorough", timeout=900,
+                functions=["request::query::QueryParams::iter", "request::query::QueryParams::new"],
+                clauses=["`k=v&k=v` read through the request's query iterator yields, in order, the RFC 3986 percent-decoding of the parts around each `=`; nothing after the last pair"],
+                bound=f"two pairs, 1-byte keys, values of {l} symbolic ASCII bytes (any except & and =)") for k, l in enumerate([(1, 1), (3, 0), (0, 3), (2, 2)])]
 # written but NOT registered (measured: 8-32 GB or no answer in 15 min each; kept in harness/C09 for reference): the symbolic full-domain char, the derived unit enum (+Option),
 # symbolic strings of 1-2 bytes, symbolic string pairs, and the `k=v&k=v` text harnesses
 UNREGISTERED = ("c09_roundtrip_pair_bool", "c09_roundtrip_triple_bool", "c09_roundtrip_char", "c09_roundtrip_unit_enum", "c09_roundtrip_option_unit_enum", "c09_roundtrip_string_k01", "c09_roundtrip_string_k02")
